@@ -90,9 +90,9 @@ def gen_step_settings(rng, template, nsteps):
 
 def generate(spec):
     rng = random.Random(spec["seed"])
-    template = rng.choice(["T1", "T1", "T2", "T3"])
+    template = rng.choice(["T1", "T1", "T2", "T3", "T5"])
     start = rng.choice(STARTS)
-    dt = rng.choice(DTS)
+    dt = rng.choice(DTS) if template != "T5" else rng.choice([1.0, 0.5, 0.25, 0.2])      # (T5's look-back spans 1.0: a few steps)
     nsteps = rng.choice([4, 5, 7, 10, 15])           # grid points
     stop = float(T.grid(start, start + dt * (nsteps - 1) + dt / 2, dt)[-1])
     els = T.ELEMENTS[template]
